@@ -56,6 +56,24 @@ def rename_to_known(g):
     g["renamed"] = sorted(set(ren.values()))
 
 
+def _mark_returns(n, inl_id):
+    """`return` of an inlined helper leaves only the inlined block: it becomes `ireturn` (returns inside closures stay)"""
+    stack = [n]
+    while stack:
+        x = stack.pop()
+        if isinstance(x, dict):
+            if x.get("k") == "closure":
+                continue
+            if x.get("k") == "return":
+                x["k"] = "ireturn"
+                x["inl"] = inl_id
+            for key, v in x.items():
+                if key != "mac" and isinstance(v, (dict, list)):
+                    stack.append(v)
+        elif isinstance(x, list):
+            stack.extend(v for v in x if isinstance(v, (dict, list)))
+
+
 def _offset_ids(n, off, mark_returns=True):
     stack = [n]
     while stack:
@@ -63,8 +81,6 @@ def _offset_ids(n, off, mark_returns=True):
         if isinstance(x, dict):
             if x.get("k") in ("local", "pbind") and isinstance(x.get("id"), int):
                 x["id"] += off
-            if mark_returns and x.get("k") == "return":
-                x["inl"] = True
             for v in x.values():
                 if isinstance(v, (dict, list)):
                     stack.append(v)
@@ -131,17 +147,191 @@ def inline_helpers(f, crate, depth=2, _callers=None, _counter=None):
                 params = copy.deepcopy(h["params"])
                 _offset_ids(body, off)
                 _offset_ids(params, off)
+                _mark_returns(body, off)
                 body = rewrite(body, d - 1)
                 args = call_args(n) if n["k"] == "mcall" else n["args"]
                 if len(args) != len(params):
                     return n
                 stmts = [{"k": "let", "pat": p, "init": a, "sp": n.get("sp"), "inl_param": True} for p, a in zip(params, args)]
                 changed[0] = True
-                return {"k": "blockexpr", "b": {"k": "block", "stmts": stmts, "tail": body, "sp": n.get("sp")}, "ty": n.get("ty"), "sp": n.get("sp"), "inlined_from": h["path"]}
+                return {"k": "blockexpr", "b": {"k": "block", "stmts": stmts, "tail": body, "sp": n.get("sp")}, "ty": n.get("ty"), "sp": n.get("sp"), "inlined_from": h["path"], "inl_id": off}
         return n
     g["body"] = rewrite(g["body"], depth)
     g["inlined"] = changed[0]
+    if changed[0]:
+        g["body"] = push_continuations(g["body"])
     return g
+
+
+def _path_tail(p):
+    return "::".join(p.split("::")[-2:])
+
+
+def match_value(pat, v):
+    """does the value expression v match pat?  [(binding pattern, value)..] if certainly yes, False if certainly not, None if unknown"""
+    while pat.get("k") == "pref":
+        pat = pat["sub"]
+    k = pat.get("k")
+    if k == "pwild":
+        return []
+    if k == "pbind" and "sub" not in pat:
+        return [(pat, v)]
+    v = tail_value(v)
+    if k == "pvariant":
+        if v.get("k") == "ctor" or (v.get("k") == "def" and str(v.get("dk", "")).startswith("ctor")):
+            vp = callee(v) if v.get("k") == "ctor" else v.get("path", "")
+            if not vp:
+                return None
+            if _path_tail(vp) != _path_tail(pat["path"]):
+                # a different variant of the same enum: certainly no match; otherwise unknown
+                return False if vp.split("::")[-2:-1] == pat["path"].split("::")[-2:-1] else None
+            args = v.get("args", [])
+            if pat.get("rest") or len(args) != len(pat.get("subs", [])):
+                return None if args or pat.get("subs") else []
+            out = []
+            for sp_, a in zip(pat["subs"], args):
+                r = match_value(sp_, a)
+                if r is None or r is False:
+                    return r
+                out += r
+            return out
+        return None
+    if k == "plit":
+        if v.get("k") == "lit" and "v" in v and "v" in pat:
+            return [] if v["v"] == pat["v"] else False
+        return None
+    return None
+
+
+def _tail_leaves(e, out):
+    """value leaves in tail position of e (through blocks, if/else, match); appends (holder, key) pairs so that a leaf can be replaced"""
+    def rec(holder, key):
+        x = holder[key]
+        k = x.get("k")
+        if k == "blockexpr":
+            if "tail" in x["b"]:
+                rec(x["b"], "tail")
+            else:
+                out.append((holder, key, True))
+        elif k == "block":
+            if "tail" in x:
+                rec(x, "tail")
+            else:
+                out.append((holder, key, True))
+        elif k == "if" and "else" in x:
+            rec(x, "then")
+            rec(x, "else")
+        elif k == "match":
+            for arm in x["arms"]:
+                rec(arm, "body")
+        else:
+            out.append((holder, key, x.get("ty") == "!" or k in ("return", "ireturn", "break", "continue")))
+    rec(e[0], e[1])
+
+
+def push_continuations(root):
+    """`if let P = <inlined helper>[?] {A} else {C}` / `match <inlined helper>[?] {..}` / `if <inlined helper> {A} else {C}`:
+    when every exit value of the helper is a literal constructor, the selected branch is moved to the helper's exit
+    (case-of-case), so that the branch is seen under the helper's own conditions - the code as it was before the helper was extracted."""
+    def visit(holder, key):
+        n = holder[key]
+        if isinstance(n, list):
+            for i in range(len(n)):
+                visit(n, i)
+            return
+        if not isinstance(n, dict):
+            return
+        for k_ in list(n.keys()):
+            if k_ != "mac" and isinstance(n[k_], (dict, list)):
+                visit(n, k_)
+        kind = n.get("k")
+        arms = None
+        if kind == "if":
+            c = n["cond"]
+            while c.get("k") == "blockexpr" and not c["b"]["stmts"] and "tail" in c["b"] and "inl_id" not in c:
+                c = c["b"]["tail"]
+            els = n.get("else", {"k": "blockexpr", "b": {"k": "block", "stmts": []}, "ty": "()"})
+            if c.get("k") == "letexpr":
+                scrut, arms = c["init"], [(c["pat"], n["then"]), ({"k": "pwild"}, els)]
+            else:
+                scrut, arms = c, [({"k": "plit", "v": True}, n["then"]), ({"k": "plit", "v": False}, els)]
+        elif kind == "match" and all("guard" not in a for a in n["arms"]):
+            scrut, arms = n["scrut"], [(a["pat"], a["body"]) for a in n["arms"]]
+        if not arms:
+            return
+        has_try = False
+        x = scrut
+        while True:
+            if x.get("k") == "try":
+                if has_try:
+                    return
+                has_try, x = True, x["e"]
+            elif x.get("k") == "blockexpr" and "inl_id" not in x and not x["b"]["stmts"] and "tail" in x["b"]:
+                x = x["b"]["tail"]
+            else:
+                break
+        if x.get("k") != "blockexpr" or "inl_id" not in x:
+            return
+        iid = x["inl_id"]
+        exits = []          # (kind, node or (holder,key))
+        for y in walk(x["b"]):
+            if y.get("k") == "ireturn" and y.get("inl") == iid:
+                exits.append(("iret", y))
+        leaves = []
+        _tail_leaves((x, "b"), leaves)
+        for h_, k2, div in leaves:
+            if not div:
+                exits.append(("leaf", (h_, k2)))
+        plan = []
+        for ek, tgt in exits:
+            v = tgt.get("e") if ek == "iret" else tgt[0][tgt[1]]
+            if v is None:
+                return
+            v = tail_value(v)
+            if has_try:
+                if v.get("k") == "ctor" and callee(v).endswith("Result::Ok") and len(v["args"]) == 1:
+                    v = v["args"][0]
+                elif v.get("k") == "ctor" and callee(v).endswith("Result::Err"):
+                    plan.append((ek, tgt, "err", None, None))
+                    continue
+                else:
+                    return
+            chosen = None
+            for pat, body in arms:
+                r = match_value(pat, v)
+                if r is None:
+                    return
+                if r is False:
+                    continue
+                chosen = (r, body)
+                break
+            if chosen is None:
+                return
+            plan.append((ek, tgt, "val", chosen[0], chosen[1]))
+        if not plan:
+            return
+        for ek, tgt, what, binds, body in plan:
+            if what == "err":
+                if ek == "iret":
+                    tgt["k"] = "return"
+                    tgt.pop("inl", None)
+                else:
+                    old = tgt[0][tgt[1]]
+                    tgt[0][tgt[1]] = {"k": "return", "e": old, "ty": "!", "sp": old.get("sp")}
+                continue
+            stmts = [{"k": "let", "pat": p_, "init": val, "sp": val.get("sp"), "inl_param": True} for p_, val in binds]
+            rep = {"k": "blockexpr", "b": {"k": "block", "stmts": stmts, "tail": copy.deepcopy(body), "sp": body.get("sp")}, "ty": body.get("ty"), "sp": body.get("sp"), "cont_of": iid}
+            if ek == "iret":
+                tgt["e"] = rep
+            else:
+                tgt[0][tgt[1]] = rep
+        x["ty"] = n.get("ty")
+        x["case_of_case"] = True
+        holder[key] = x
+    box = {"r": root}
+    visit(box, "r")
+    return box["r"]
+
 
 
 def collect_aliases(f):
@@ -279,3 +469,31 @@ def enum_dispatch(n, lid, enum_prefix):
                     return None
         return out
     return None
+
+
+def built_by_loop(ix, defs, vid):
+    """a vector local filled by exactly one unconditional `v.push(E)` in the body of one `for pat in SRC` loop (and nothing else)
+    is `SRC.map(|pat| E).collect()`: returns (SRC expression, loop pattern, E, loop node) or None"""
+    d = defs.get(vid)
+    if not (d and d[0] == "let" and "init" in d[1]):
+        return None
+    init = tail_value(d[1]["init"])
+    fresh = (init.get("k") == "call" and (callee(init) or "").endswith(("Vec::<T>::new", "Vec::new", "Vec::<T>::with_capacity", "Vec::with_capacity"))) \
+        or (init.get("k") in ("call", "mcall") and "vec" in mac_names(init) and not init.get("args")) or ("vec" in mac_names(init) and "[]" in show(init))
+    if not fresh and not ((callee(init) or "").split("::")[-1] in ("new", "with_capacity", "default") and "Vec<" in (init.get("ty") or "")):
+        return None
+    uses = [n for n in ix.nodes if n.get("k") == "local" and n["id"] == vid]
+    pushes = [n for n in ix.nodes if n.get("k") == "mcall" and n["name"] == "push" and is_local(n["recv"], vid)]
+    muts = [n for n in ix.nodes if n.get("k") == "mcall" and peel(n["recv"]).get("k") == "local" and peel(n["recv"])["id"] == vid
+            and n["name"] in ("push", "pop", "insert", "remove", "clear", "truncate", "extend", "extend_from_slice", "retain", "append", "drain", "swap_remove", "sort", "reverse", "dedup")]
+    if len(pushes) != 1 or len(muts) != 1:
+        return None
+    pu = pushes[0]
+    lp = ix.enclosing(pu, ("for",))
+    if lp is None or ix.enclosing(pu, ("for", "while", "loop")) is not lp:
+        return None
+    if len(ix.regions[id(pu)]) != len(ix.regions[id(lp)]) + 1:
+        return None                 # conditional push
+    if any(x.get("k") in ("break", "continue", "return") for x in walk(lp["body"])):
+        return None
+    return lp["iter"], lp["pat"], pu["args"][0], lp
